@@ -546,7 +546,7 @@ pub fn make_ctx(prog: &Program) -> Arc<Ctx> {
         status: StdMutex::new(HashMap::new()),
         main_waiting: AtomicBool::new(false),
         done: rt::Mutex::new(0),
-        done_cv: rt::Condvar::new(),
+        done_cv: rt::Condvar::new_silent(),
         max_pool: AtomicUsize::new(prog.pool),
         pool_changed: AtomicBool::new(false),
         stats: StdMutex::new(HashMap::new()),
